@@ -38,8 +38,8 @@ theorem withMapping_plain (pt : PT) (pm : List (String × Expr)) (mm : List (MNa
     withMapping pt pm mm cm = some (withMappingExplicit pt pm mm cm) := by
   unfold withMapping mkMapping withMappingExplicit
   split
-  · rename_i body pm' mm' cm' cons
-    exact absurd rfl (h body pm' mm' cm' cons)
+  · rename_i body pm' mm' cm'
+    exact absurd rfl (h body pm' mm' cm' [])
   · rfl
 
 theorem withParallelAtomic_plain (pt : PT) (par : List PT)
